@@ -13,6 +13,8 @@ pub enum LuaScopeKind {
     FuncStat,
     // defined in function xxx:aaa() end
     MethodStat,
+    // a function expression: its parameters and its body
+    Closure,
 }
 
 #[derive(Debug, Eq, PartialEq, Hash, Clone)]
